@@ -225,6 +225,14 @@ def judge (s : St) (q a : List String) : St × Verdict :=
             | some (some m) => (s', if m = r then .ok else .disagree s!"{repr m}")
             | some none => (s', .disagree "exception")
             | none => (s', .ok)
+          | some (_, "torus") | some (_, "fattree") =>
+            -- the gateways a cluster-like zone returns: ClusterBase's table = the default gateway of a netzone leaf
+            let isRouter := fun np => match s.npZone[np]? with
+              | some (_, isHost) => !isHost
+              | none => false
+            let tab := fun np => if s.zones.contains np then P.gateway np else none
+            let m := clusterGw isRouter tab x y
+            (s', if m = (gs, gd) then .ok else .disagree s!"gateways {repr m}")
           | some (_, "vivaldi") =>
             -- the Star part and the coordinate term, from the coordinates the library stores
             match vivaldiExpected s z x y with
